@@ -3,6 +3,7 @@ package main
 // Built-in semantics for library functions the executed code reaches (DESIGN §2.6 rule 1).
 
 import (
+	"regexp"
 	"fmt"
 	"go/types"
 	"strings"
@@ -1378,6 +1379,37 @@ func regexpReplaceAllLiteral(c *CallCtx) (Value, bool) {
 	src := c.args[1].(SliceV)
 	n := e.concretize(st, src.Len, e.job.MaxLen, "ReplaceAllLiteral input length")
 	bt := types.Typ[types.Uint8]
+	// fully concrete input (and replacement): the real regexp engine decides, natively
+	if repl, ok := c.args[2].(SliceV); ok && repl.Len.IsConst() {
+		in := make([]byte, 0, n)
+		conc := true
+		for i := 0; i < n && conc; i++ {
+			b := e.load(st, e.ptrAdd(src.P, i), bt).(*Term)
+			if b.IsConst() {
+				in = append(in, byte(b.BV))
+			} else {
+				conc = false
+			}
+		}
+		rn := int(repl.Len.BV)
+		rb := make([]byte, 0, rn)
+		for i := 0; i < rn && conc; i++ {
+			b := e.load(st, e.ptrAdd(repl.P, i), bt).(*Term)
+			if b.IsConst() {
+				rb = append(rb, byte(b.BV))
+			} else {
+				conc = false
+			}
+		}
+		if conc {
+			out := regexp.MustCompile(pat).ReplaceAllLiteral(in, rb)
+			np := e.allocArray(st, bt, len(out))
+			for i, b := range out {
+				e.store(st, e.ptrAdd(np, i), bt, ts.BV(uint64(b), 8))
+			}
+			return SliceV{P: np, Len: ts.Int(int64(len(out))), Cap: ts.Int(int64(len(out)))}, true
+		}
+	}
 	var bad []*Term
 	for i := 0; i < n; i++ {
 		b := e.load(st, e.ptrAdd(src.P, i), bt).(*Term)
